@@ -9,8 +9,13 @@ import (
 	"path/filepath"
 	"strings"
 
+	"net"
+	"time"
+
 	"perun.network/go-perun/wire"
+	wirenet "perun.network/go-perun/wire/net"
 	perunioser "perun.network/go-perun/wire/perunio/serializer"
+	protoser "perun.network/go-perun/wire/protobuf"
 	"verif/harness/internal/cv"
 	"verif/harness/internal/hx"
 )
@@ -58,6 +63,31 @@ func split(bs []byte, cuts []int) [][]byte {
 	return out
 }
 
+// pipeRecv sends the chunks through a net.Pipe (each chunk is one Write, hence at most one Read on the
+// other side returns bytes of it) and receives `count` envelopes with wire/net.NewIoConn.
+func pipeRecv(ser wire.EnvelopeSerializer, chunks [][]byte, count int) (got []string, ok bool) {
+	a, b := net.Pipe()
+	defer a.Close()
+	defer b.Close()
+	_ = b.SetReadDeadline(time.Now().Add(20 * time.Second))
+	go func() {
+		for _, c := range chunks {
+			if _, err := a.Write(c); err != nil {
+				return
+			}
+		}
+	}()
+	conn := wirenet.NewIoConn(b, ser)
+	for i := 0; i < count; i++ {
+		e, err := conn.Recv()
+		if err != nil {
+			return got, false
+		}
+		got = append(got, cv.Envelope(e))
+	}
+	return got, true
+}
+
 // RunC16 decodes streams of envelopes through chunking readers with the native serializer.
 func RunC16(seed int64, tier, out string) {
 	hx.Seed(seed)
@@ -93,6 +123,7 @@ func RunC16(seed int64, tier, out string) {
 		cnt := 1 + g.R.Intn(3)
 		var stream []byte
 		var want []string
+		var envs []*wire.Envelope
 		for i := 0; i < cnt; i++ {
 			e := g.Envelope(wire.Type(g.R.Intn(int(wire.LastType))))
 			var buf bytes.Buffer
@@ -101,6 +132,7 @@ func RunC16(seed int64, tier, out string) {
 			}
 			stream = append(stream, buf.Bytes()...)
 			want = append(want, cv.Envelope(e))
+			envs = append(envs, e)
 		}
 		var cuts []int
 		class := ""
@@ -156,6 +188,65 @@ func RunC16(seed int64, tier, out string) {
 			res.Fail(hx.Failure{Site: "perunio/serializer.Decode", InputClass: class, Case: idx,
 				What:   fmt.Sprintf("chunked delivery decoded %d of %d envelopes (clean=%v)", len(got), len(want), clean),
 				Replay: map[string]interface{}{"stream": fmt.Sprintf("%x", stream), "cuts": cuts}})
+		}
+		// the same stream through wire/net.ioConn over a net.Pipe (oracle only: same model)
+		if pg, pok := pipeRecv(ser, chunks, len(want)); !pok || strings.Join(pg, ";") != strings.Join(want, ";") {
+			res.Fail(hx.Failure{Site: "wire/net.ioConn.Recv(native)", InputClass: class, Case: idx,
+				What: fmt.Sprintf("pipe delivery decoded %d of %d envelopes", len(pg), len(want)), Replay: map[string]interface{}{"stream": fmt.Sprintf("%x", stream), "cuts": cuts}})
+		}
+		res.Count("pipe-native/"+class, "ok", fmt.Sprintf("pipe-native/%s/%d", class, len(want)), false)
+		// protobuf serializer: frames of the same envelopes, same partition classes (oracle only until
+		// the protobuf conversions are part of the model)
+		var pstream []byte
+		var pwant []string
+		for _, e := range envs {
+			e := e
+			pb, pok, _ := Encode(func(w io.Writer) error { return protoser.Serializer().Encode(w, e) })
+			if !pok {
+				continue // not representable in protobuf / encoder failure (covered by C14)
+			}
+			back, err := protoser.Serializer().Decode(bytes.NewReader(pb))
+			if err != nil {
+				continue
+			}
+			pstream = append(pstream, pb...)
+			pwant = append(pwant, cv.Envelope(back))
+		}
+		if len(pwant) > 0 {
+			var pcuts []int
+			for _, c := range cuts {
+				if c < len(pstream) {
+					pcuts = append(pcuts, c)
+				}
+			}
+			if class == "single-bytes" {
+				pcuts = nil
+				for i := 1; i < len(pstream); i++ {
+					pcuts = append(pcuts, i)
+				}
+			}
+			pchunks := split(pstream, pcuts)
+			prd := &chunkReader{chunks: append([][]byte{}, pchunks...)}
+			var pgot []string
+			pclean := true
+			for !prd.empty() {
+				e, err := protoser.Serializer().Decode(prd)
+				if err != nil {
+					pclean = false
+					break
+				}
+				pgot = append(pgot, cv.Envelope(e))
+			}
+			res.Count("proto/"+class, fmt.Sprintf("decoded=%d/%d", len(pgot), len(pwant)), fmt.Sprintf("proto/%s/%d/%d", class, len(pwant), len(pgot)), false)
+			if !pclean || strings.Join(pgot, ";") != strings.Join(pwant, ";") {
+				res.Fail(hx.Failure{Site: "wire/protobuf.serializer.Decode", InputClass: class, Case: idx,
+					What:   fmt.Sprintf("chunked delivery decoded %d of %d protobuf frames (clean=%v)", len(pgot), len(pwant), pclean),
+					Replay: map[string]interface{}{"stream": fmt.Sprintf("%x", pstream), "cuts": pcuts}})
+			}
+			if pg, pok := pipeRecv(protoser.Serializer(), pchunks, len(pwant)); !pok || strings.Join(pg, ";") != strings.Join(pwant, ";") {
+				res.Fail(hx.Failure{Site: "wire/net.ioConn.Recv(protobuf)", InputClass: class, Case: idx,
+					What: fmt.Sprintf("pipe delivery decoded %d of %d protobuf frames", len(pg), len(pwant)), Replay: map[string]interface{}{"stream": fmt.Sprintf("%x", pstream), "cuts": pcuts}})
+			}
 		}
 		if len(cases) >= 16 {
 			flush()
